@@ -3,7 +3,7 @@
 # self-contained prompts /tmp/seed/prompt<i>.txt given to fresh sub-agents (property text + worktree only).
 import json, os, subprocess, sys, glob
 rnd = sys.argv[1] if len(sys.argv) > 1 else '2'
-names = {'1': ('m1', 'm2'), '2': ('m3', 'm4'), '3': ('m5', 'm6'), '4': ('m7', 'm8'), '5': ('m9', 'm10'), '6': ('m11', 'm12'), '7': ('m13', 'm14'), '8': ('m15', 'm16')}[rnd]
+names = {'1': ('m1', 'm2'), '2': ('m3', 'm4'), '3': ('m5', 'm6'), '4': ('m7', 'm8'), '5': ('m9', 'm10'), '6': ('m11', 'm12'), '7': ('m13', 'm14'), '8': ('m15', 'm16'), '9': ('m17', 'm18')}[rnd]
 props = {json.loads(l)['id']: json.loads(l) for l in open('/verif/properties.jsonl')}
 head = '''You are helping to evaluate a verification tool by seeding realistic, subtle defects into a Go library (Trendyol/go-dcp, a Couchbase DCP consumer library). You work ONLY inside scratch git worktrees under /tmp/seed/ — never touch /repo or /verif, never read anything under /verif.
 
@@ -15,7 +15,7 @@ Environment: no network. Before every go command: `export GOFLAGS=-mod=mod GOPRO
 
 Properties:
 '''
-extra = {'8': 'Do not use `git stash` (the worktrees share one stash).', '7': 'Both changes go INSIDE functions named in the anchors (different functions for the two). Avoid the plain operator flip; aim for the mistakes that type-check and read naturally: an integer conversion that truncates or wraps (uint16 / int32 / int), a unit confusion (seconds vs nanoseconds, count vs index), a value copied where the code needs the shared object (or shared where it needs a copy), slice or map aliasing, a read of a field before it is updated (stale read) or after it is reset, two effects performed in the other order, a defer that now runs too late, a retry or loop bound that is off by one, a fallback default taken when the value is legitimately zero, a comparison against the wrong one of two similar fields (start vs end, current vs persisted, old vs new), an error path that returns early and skips a required side effect. Do not use `git stash` (the worktrees share one stash).', '6': 'Make each change SMALL (one to eight changed lines). One of the two must be inside a function named in the anchors; the other must NOT be in an anchored function but in code the property also depends on: constructors and wiring (New..., dcp.go Start/close and the listeners registered there), the metadata backends, membership implementations, rollback-mitigation plumbing (reset, observe and its completion callback, markAbsentInstances, observeVbID), checkpoint scheduling and the Commit path, connection/config helpers, HTTP client, small predicates and getters that the anchored code calls. Think about what a reviewer would wave through: a boundary that is right except for one value, an error that is logged instead of returned (or the reverse), a field copied from the wrong sibling object, a guard that is one state too wide, a counter or flag updated on one path only, work skipped as an optimisation when it looks redundant, a default applied where an explicit zero was meant. Do not use `git stash` (the worktrees share one stash).', '5': 'Make each change SMALL (one to five changed lines) and of a kind that slips through code review: a value computed from the wrong variable of the same type, a stale copy used after an update, a default/zero value mishandled, an early return added or removed on an error path, an off-by-one at a boundary, a condition that is right for the common case and wrong for a rare combination of flags/config values, state updated on one branch but not on its sibling, a defer/cleanup that runs in the wrong order. One of the two must NOT be in a function named in the anchors but in code the anchored functions rely on or that relies on them (callers, constructors, helpers, interface implementations, the root package). Do not use `git stash` (the worktrees share one stash).', '4': 'Disguise each change as an IMPROVEMENT a maintainer would welcome: a performance optimisation (caching, batching, pooling, avoiding an allocation or a lock), a robustness fix (an added retry, timeout, nil check, recover, back-off), an API clean-up, or support for a new corner case - whose side effect breaks the property. Do not use `git stash` (the worktrees share one stash).', '1': '', '2': 'The two changes for a property must be in DIFFERENT functions, and at least one of them should be away from the most obvious line for that property: look at the helper functions, constructors, configuration plumbing, wrappers, the root package (dcp.go) and the less central anchors that the property also depends on.', '3': 'Look for places where the property depends on TWO pieces of code agreeing (a writer and a reader, a flag and its consumer, a constructor and a method) and break the agreement on one side only.'}[rnd]
+extra = {'9': 'For this round at least ONE of the two changes per property must be about ORDER or CONCURRENCY rather than values: a lock dropped, narrowed or taken later; a wait (WaitGroup, channel receive, Wait on an operation) removed or moved; state published before it is complete (a flag set before the data it guards, a map entry stored before its fields are filled); a goroutine started earlier or later than the state it reads; a channel made unbuffered or buffered; two externally visible calls swapped; a once-guard or closed-flag check moved after the effect it guards. Work quickly: aim to finish within about 15 minutes. Do not use `git stash` (the worktrees share one stash).', '8': 'Do not use `git stash` (the worktrees share one stash).', '7': 'Both changes go INSIDE functions named in the anchors (different functions for the two). Avoid the plain operator flip; aim for the mistakes that type-check and read naturally: an integer conversion that truncates or wraps (uint16 / int32 / int), a unit confusion (seconds vs nanoseconds, count vs index), a value copied where the code needs the shared object (or shared where it needs a copy), slice or map aliasing, a read of a field before it is updated (stale read) or after it is reset, two effects performed in the other order, a defer that now runs too late, a retry or loop bound that is off by one, a fallback default taken when the value is legitimately zero, a comparison against the wrong one of two similar fields (start vs end, current vs persisted, old vs new), an error path that returns early and skips a required side effect. Do not use `git stash` (the worktrees share one stash).', '6': 'Make each change SMALL (one to eight changed lines). One of the two must be inside a function named in the anchors; the other must NOT be in an anchored function but in code the property also depends on: constructors and wiring (New..., dcp.go Start/close and the listeners registered there), the metadata backends, membership implementations, rollback-mitigation plumbing (reset, observe and its completion callback, markAbsentInstances, observeVbID), checkpoint scheduling and the Commit path, connection/config helpers, HTTP client, small predicates and getters that the anchored code calls. Think about what a reviewer would wave through: a boundary that is right except for one value, an error that is logged instead of returned (or the reverse), a field copied from the wrong sibling object, a guard that is one state too wide, a counter or flag updated on one path only, work skipped as an optimisation when it looks redundant, a default applied where an explicit zero was meant. Do not use `git stash` (the worktrees share one stash).', '5': 'Make each change SMALL (one to five changed lines) and of a kind that slips through code review: a value computed from the wrong variable of the same type, a stale copy used after an update, a default/zero value mishandled, an early return added or removed on an error path, an off-by-one at a boundary, a condition that is right for the common case and wrong for a rare combination of flags/config values, state updated on one branch but not on its sibling, a defer/cleanup that runs in the wrong order. One of the two must NOT be in a function named in the anchors but in code the anchored functions rely on or that relies on them (callers, constructors, helpers, interface implementations, the root package). Do not use `git stash` (the worktrees share one stash).', '4': 'Disguise each change as an IMPROVEMENT a maintainer would welcome: a performance optimisation (caching, batching, pooling, avoiding an allocation or a lock), a robustness fix (an added retry, timeout, nil check, recover, back-off), an API clean-up, or support for a new corner case - whose side effect breaks the property. Do not use `git stash` (the worktrees share one stash).', '1': '', '2': 'The two changes for a property must be in DIFFERENT functions, and at least one of them should be away from the most obvious line for that property: look at the helper functions, constructors, configuration plumbing, wrappers, the root package (dcp.go) and the less central anchors that the property also depends on.', '3': 'Look for places where the property depends on TWO pieces of code agreeing (a writer and a reader, a flag and its consumer, a constructor and a method) and break the agreement on one side only.'}[rnd]
 tail = '''
 For each mutant write, in the property's output directory, a sub-directory {a}/ and {b}/ containing:
  - patch.diff : `git diff` of the change against the worktree's HEAD (only library source files, NOT the demonstration test). It must apply with `git apply` to a clean checkout.
